@@ -32,12 +32,14 @@ rule = ("scripts = 'a handles n', a set-up building typed buffers whose element 
         "empty), all pairs for 4 and 9 elements — BufferNoCopy has to survive every re-allocation and such content is "
         "never duplicated while shared. Third part (harness/drv_refs.c, 'r' lines): the library's own element traits — "
         "arrays of arrays (mpt_array_traits: wrap, push, take an own/other child as new content, set from source "
-        "elements, assignment of an element to itself, cut, detach, clone, drop) and arrays of metatype references (mpt_meta_reference_traits with sharable "
+        "elements, assignment of an element to itself, the whole content written back rotated (2..64 references, beyond the "
+        "256 byte save area of mpt_buffer_set), cut, detach, clone, drop) and arrays of metatype references (mpt_meta_reference_traits with sharable "
         "and single-owner harness instances) plus leaf token arrays: 8 set-ups x 37 ops, all pairs (quick: every third "
         "second op), random histories over 4 handles; after every op the harness checks that buffer and instance "
         "reference counts equal the references that exist, every live token is stored once, nothing is released twice, "
         "nothing is alive or allocated at the end. Fourth part (harness/drvxx_refs.cpp): reference_array<Obj> insert/set/"
-        "clear/copy/drop with an object type larger than a pointer. Non-trivial = the code's log contains a copy construction or a refused "
+        "clear/copy/drop with an object type larger than a pointer, and item_array<Obj>::append with no name, names stored in "
+        "the item, on the heap, and names the identifier refuses (the caller keeps its reference then). Non-trivial = the code's log contains a copy construction or a refused "
         "constructor and a destruction before the final release, counted per distinct script")
 assumptions = [
     "byte-level part: element traits are those of the harness (4 and 8 byte elements holding a token; init/fini as in "
@@ -53,7 +55,8 @@ assumptions = [
     "malloc never fails; sizes far below SIZE_MAX",
     "mpt_buffer_set is called with the buffer's own traits or compatible ones (same finaliser and size), as "
     "mpt_array_set/mpt_array_reserve do; its BadType refusal for other traits is not reached",
-    "buffer::copy and buffer::move (mpt++/array.cpp; no caller in the tree) are neither driven nor modelled",
+    "buffer::copy (mpt++/array.cpp; no caller in the tree) is driven on the buffers of reference arrays only (refused "
+    "unless the source is empty); buffer::move is neither driven nor modelled (its refusal depends on capacities)",
 ]
 trusted = ["hand-written model MptModel/Impl/Heap.lean (callbacks = harness traits) tied to mptcore/array/*.c by harness/drv_elem.c",
            "C++ part: MptModel/Impl/HeapXX.lean tied to typed_array<Elem>/unique_array<Elem>, buffer::trim/skip, content<T>::set_length "
@@ -267,7 +270,7 @@ class _Refs:
     @staticmethod
     def corpus(chk):
         return [(n, s) for n, s in gen.corpus(id) if s and s[0].startswith("r ")
-                and not any(" rins " in x or " rset " in x for x in s)]
+                and not any(" rins " in x or " rset " in x or " iappend " in x or " bcopy " in x for x in s)]
 
     @staticmethod
     def scripts(tier, seed, scale=1):
@@ -315,7 +318,7 @@ def refs_pool(h, o):
     return ["r take %s 0" % h, "r take %s 1" % h, "r takeo %s %s 0" % (h, o), "r clone %s %s" % (h, o), "r drop %s" % h,
             "r detach %s" % h, "r cut %s 0" % h, "r cut %s 1" % h, "r push %s %s" % (h, o), "r wrap %s" % h,
             "r set %s 0 %s 0 1" % (h, o), "r set %s 1 %s 0 2" % (h, o), "r set %s 2 %s 1 1" % (h, o),
-            "r madd %s 1" % h, "r madd %s 0" % h, "r leaf %s 2" % h, "r mnew %s 1 0" % h, "r selfset %s 0" % h, "r selfset %s 2" % h]
+            "r madd %s 1" % h, "r madd %s 0" % h, "r leaf %s 2" % h, "r mnew %s 1 0" % h, "r selfset %s 0" % h, "r selfset %s 2" % h, "r selfrot %s 1" % h]
 
 
 def refs_scripts(tier, seed, scale=1):
@@ -327,6 +330,17 @@ def refs_scripts(tier, seed, scale=1):
         for a in pool:
             for b in (pool if tier != "quick" else pool[::3]):
                 out.append(("rf2:%s:%s;%s" % (sn, a, b), ["r handles 3"] + setup + [a, b, "r end"]))
+    # the whole content written back rotated (every new element refers to what a replaced element owns), up to and
+    # beyond the 32 references that fit the local save area of mpt_buffer_set; sharable / single-owner, shared or not
+    for cnt in ((2, 32, 33, 40, 61) if tier == "quick" else (1, 2, 8, 31, 32, 33, 34, 40, 61, 64)):
+        for sh in (1, 0):
+            for shared in (False, True):
+                su = ["r mnew h0 %d %d" % (cnt, sh)] + (["r clone h1 h0"] if shared else [])
+                for k in (0, 1, cnt - 1, 7):
+                    for h in ("h0", "h1") if shared else ("h0",):
+                        for b in ("r drop h0", "r selfrot %s 1" % h, "r cut %s 0" % h, "r madd %s 1" % h):
+                            out.append(("rot:%d:%d:%s:%s:%d;%s" % (cnt, sh, shared, h, k, b),
+                                        ["r handles 2"] + su + ["r selfrot %s %d" % (h, k), b, "r end"]))
     r = gen.rng(id, tier, seed, "refs")
     n = (300 if tier == "quick" else 5000) * scale
     hs = ["h0", "h1", "h2", "h3"]
@@ -380,7 +394,7 @@ class _RefsXX:
 
     @staticmethod
     def corpus(chk):
-        return [(n, s) for n, s in gen.corpus(id) if s and s[0].startswith("r ") and any(" rins " in x or " rset " in x for x in s)]
+        return [(n, s) for n, s in gen.corpus(id) if s and s[0].startswith("r ") and any(" rins " in x or " rset " in x or " iappend " in x or " bcopy " in x for x in s)]
 
     @staticmethod
     def scripts(tier, seed, scale=1):
@@ -392,13 +406,27 @@ class _RefsXX:
         def ops(h, o):
             return ["r rins %s 0 1" % h, "r rins %s 1 0" % h, "r rins %s -1 1" % h, "r rins %s 5 1" % h, "r rins %s -9 1" % h,
                     "r rset %s 0 1" % h, "r rset %s -1 0" % h, "r rset %s 7 1" % h, "r rclear %s" % h, "r rdrop %s" % h,
-                    "r rclone %s %s" % (h, o)]
+                    "r rclone %s %s" % (h, o), "r bcopy %s %s" % (h, o)]
         pool = ops("h0", "h1") + ops("h1", "h0")
         for sn, su in setups.items():
             for a in pool:
                 out.append(("ru1:%s:%s" % (sn, a), ["r handles 2"] + su + [a, "r end"]))
                 for b in pool:
                     out.append(("ru2:%s:%s;%s" % (sn, a, b), ["r handles 2"] + su + [a, b, "r end"]))
+        # item_array<Obj>::append with names the identifier stores locally, on the heap, or refuses (65535 bytes and
+        # more with the terminator), unnamed, onto empty / filled / shared arrays
+        isetups = {"empty": [], "two": ["r iappend h0 1 3", "r iappend h0 0 -"],
+                   "two-shared": ["r iappend h0 1 3", "r iappend h0 0 40", "r rclone h1 h0"],
+                   "grown": ["r iappend h0 1 %d" % (k * 7) for k in range(9)]}
+        def iops(h, o):
+            return ["r iappend %s %d %s" % (h, sh, n) for sh in (0, 1) for n in ("-", "0", "27", "28", "300", "65533", "65534", "65535", "65536", "70000")] \
+                + ["r rdrop %s" % h, "r rclone %s %s" % (h, o)]
+        ipool = iops("h0", "h1") + iops("h1", "h0")
+        for sn, su in isetups.items():
+            for a in ipool:
+                out.append(("ri1:%s:%s" % (sn, a), ["r handles 2"] + su + [a, "r end"]))
+                for b in (ipool if tier != "quick" else ipool[::3]):
+                    out.append(("ri2:%s:%s;%s" % (sn, a, b), ["r handles 2"] + su + [a, b, "r end"]))
         r = gen.rng(id, tier, seed, "refsxx")
         hs = ["h0", "h1", "h2"]
         for k in range((100 if tier == "quick" else 2000) * scale):
@@ -406,7 +434,9 @@ class _RefsXX:
             for _ in range(r.randrange(5, 25)):
                 h = r.choice(hs)
                 op = r.choice(["rins", "rins", "rins", "rset", "rclear", "rdrop", "rclone", "rclone"])
-                if op in ("rins", "rset"):
+                if op == "rclone" and r.random() < 0.25:
+                    lines.append("r bcopy %s %s" % (h, r.choice([x for x in hs if x != h])))
+                elif op in ("rins", "rset"):
                     lines.append("r %s %s %d %d" % (op, h, r.choice([0, 0, 1, 2, 3, 9, -1, -2, -20]), r.choice([0, 1])))
                 elif op == "rclone":
                     lines.append("r rclone %s %s" % (h, r.choice([x for x in hs if x != h])))
